@@ -693,6 +693,13 @@ class Exec:
                 if key not in self.__dict__.setdefault('_classattr', {}):
                     cenv = Env()
                     cenv.fn = Closure(ci.node, Env(), c, cls=c, module=ci.module)
+                    for prev in ci.node.body:          # class-body scope: earlier class-level names are visible
+                        if prev is n:
+                            break
+                        if isinstance(prev, ast.Assign) and len(prev.targets) == 1 and isinstance(prev.targets[0], ast.Name) and prev.targets[0].id != name:
+                            pm = self.class_member(c, prev.targets[0].id)
+                            if isinstance(pm, tuple):
+                                cenv.v[prev.targets[0].id] = pm[1]
                     self._classattr[key] = self.ev(n.value, cenv)
                 return ('value', self._classattr[key])
             todo += ci.bases
